@@ -63,6 +63,15 @@ type verifSACase struct {
 	Ref     bool     `json:"ref"`     // run the same text on the plain DuckDB with views
 	Twice   bool     `json:"twice"`   // send the request a second time (transform cache) and compare
 	NoToken bool     `json:"notoken"` // no token info in the context
+	// Pre: requests sent to the SAME handler instance immediately before this one (their responses are
+	// discarded): sequences within the transform-cache TTL.  Everything reported is about THIS request.
+	Pre []verifSAPre `json:"pre"`
+}
+
+type verifSAPre struct {
+	SQL   string   `json:"sql"`
+	Hdr   string   `json:"hdr"`
+	Allow []string `json:"allow"`
 }
 
 type verifSAIn struct {
@@ -343,6 +352,14 @@ func verifSARun(t *testing.T, in *verifSAIn, outs []verifSAOut) {
 		c := &in.Cases[i]
 		o := &outs[i]
 		sqlText := strings.ReplaceAll(c.SQL, "{ROOT}", base)
+		withToken = true
+		for _, pre := range c.Pre {
+			rbac.reset(pre.Allow)
+			pc := verifSACase{SQL: pre.SQL, Hdr: pre.Hdr, Ep: c.Ep}
+			if _, _, err := send(&pc, strings.ReplaceAll(pre.SQL, "{ROOT}", base)); err != nil {
+				t.Fatalf("pre-request failed: %v", err)
+			}
+		}
 		rbac.reset(c.Allow)
 		withToken = !c.NoToken
 		logw.take()
